@@ -60,3 +60,45 @@ Definition dir_ok (d : direction) (s : st) : bool :=
   | Download, UPLOADING => false
   | _, _ => true
   end.
+
+(* Documented side effects of the operations (what a successful operation must at least do):
+   - TransferManager.abort docstring + USAGE.rst "Managing Transfer States": aborting cancels the pending
+     transfer tasks, removes the partially downloaded file (downloads), and records an abort_reason
+     (USAGE.rst state table, ABORTED);
+   - USAGE.rst state table, FAILED: fail_reason records the reason;
+   - pausing stops the activity: the transfer's tasks are cancelled (every state that can own tasks);
+   - Transfer.start_time / complete_time docstrings (transfer/model.py): start_time is the time the transfer
+     entered DOWNLOADING/UPLOADING; complete_time the time it went from there to COMPLETE, INCOMPLETE,
+     ABORTED or FAILED;
+   - USAGE.rst: re-queueing an aborted download restarts it from the beginning; re-queueing a completed
+     download downloads the file again to a new location;
+   - queue(remotely) records the remotely_queued mark. *)
+Definition effect_beq (a b : effect) : bool :=
+  match a, b with
+  | SetFailReason, SetFailReason | ClearFailReason, ClearFailReason | SetAbortReason, SetAbortReason
+  | ClearAbortReason, ClearAbortReason | SetRemotelyQueued, SetRemotelyQueued | CancelTasks, CancelTasks
+  | RemoveLocalFile, RemoveLocalFile | ResetTimeVars, ResetTimeVars | ResetProgressVars, ResetProgressVars
+  | ResetLocalVars, ResetLocalVars | SetStartTime, SetStartTime | SetCompleteTime, SetCompleteTime
+  | ResetQueueVars, ResetQueueVars => true
+  | Transition x, Transition y => st_beq x y
+  | _, _ => false
+  end.
+
+Definition is_dl (d : direction) : bool := match d with Download => true | Upload => false end.
+Definition transferring (s : st) : bool := match s with DOWNLOADING | UPLOADING => true | _ => false end.
+Definition final_like (s : st) : bool := match s with COMPLETE | INCOMPLETE | ABORTED | FAILED => true | _ => false end.
+
+Definition required (s : st) (d : direction) (o : op) (s' : st) : list effect :=
+  (match o with
+   | OAbort => [CancelTasks; SetAbortReason] ++ (if is_dl d then [RemoveLocalFile] else [])
+   | OFail => [SetFailReason]
+   | OPause => match s with VIRGIN => [] | _ => [CancelTasks] end
+   | OQueue => [SetRemotelyQueued] ++
+               (if is_dl d then match s with
+                                | ABORTED => [ResetProgressVars]
+                                | COMPLETE => [ResetProgressVars; ResetLocalVars]
+                                | _ => [] end else [])
+   | _ => []
+   end) ++
+  (if transferring s' then [SetStartTime] else []) ++
+  (if transferring s && final_like s' then [SetCompleteTime] else []).
